@@ -43,6 +43,7 @@ import (
 	libp2pquic "github.com/libp2p/go-libp2p/p2p/transport/quic"
 	"github.com/libp2p/go-libp2p/p2p/transport/quicreuse"
 	"github.com/libp2p/go-libp2p/p2p/transport/tcp"
+	"github.com/libp2p/go-libp2p/p2p/transport/websocket"
 	ma "github.com/multiformats/go-multiaddr"
 	manet "github.com/multiformats/go-multiaddr/net"
 	"github.com/quic-go/quic-go"
@@ -231,12 +232,15 @@ type vfC10Host struct {
 	gate     *vfC10RecGater
 	tcpT     *vfC10RecTransport
 	quicT    *vfC10RecTransport
+	wsT      *vfC10RecTransport
 	notif    *vfC10Notif
-	listen   map[string]ma.Multiaddr // "4tcp", "4quic", "6tcp", "6quic"
+	listen   map[string]ma.Multiaddr // "4tcp", "4quic", "4ws", "6tcp", "6quic", "6ws"
 	closers  []io.Closer
 }
 
-func (h *vfC10Host) dials() int64 { return h.tcpT.dials.Load() + h.quicT.dials.Load() }
+func (h *vfC10Host) dials() int64 {
+	return h.tcpT.dials.Load() + h.quicT.dials.Load() + h.wsT.dials.Load()
+}
 
 func vfC10NewHost(name, ip4, ip6 string, real func() connmgr.ConnectionGater, resolver network.MultiaddrDNSResolver) (*vfC10Host, error) {
 	idn := vfC10Ids()[name]
@@ -312,12 +316,22 @@ func vfC10NewHost(name, ip4, ip6 string, real func() connmgr.ConnectionGater, re
 	if err := h.sw.AddTransport(h.quicT); err != nil {
 		return nil, err
 	}
+	// WebSocket shares the upgrader (gated listener, InterceptSecured); its dialer cannot be bound to a source
+	// address, so only attempts whose source the kernel picks as wanted are run over it
+	wsT, err := websocket.New(up, nil, nil)
+	if err != nil {
+		return nil, err
+	}
+	h.wsT = &vfC10RecTransport{Transport: wsT}
+	if err := h.sw.AddTransport(h.wsT); err != nil {
+		return nil, err
+	}
 	var las []ma.Multiaddr
 	if h.ip4 != nil {
-		las = append(las, ma.StringCast("/ip4/"+ip4+"/tcp/0"), ma.StringCast("/ip4/"+ip4+"/udp/0/quic-v1"))
+		las = append(las, ma.StringCast("/ip4/"+ip4+"/tcp/0"), ma.StringCast("/ip4/"+ip4+"/udp/0/quic-v1"), ma.StringCast("/ip4/"+ip4+"/tcp/0/ws"))
 	}
 	if h.ip6 != nil {
-		las = append(las, ma.StringCast("/ip6/"+ip6+"/tcp/0"), ma.StringCast("/ip6/"+ip6+"/udp/0/quic-v1"))
+		las = append(las, ma.StringCast("/ip6/"+ip6+"/tcp/0"), ma.StringCast("/ip6/"+ip6+"/udp/0/quic-v1"), ma.StringCast("/ip6/"+ip6+"/tcp/0/ws"))
 	}
 	if err := h.sw.Listen(las...); err != nil {
 		return nil, fmt.Errorf("%s: listen %v: %w", name, las, err)
@@ -330,6 +344,9 @@ func vfC10NewHost(name, ip4, ip6 string, real func() connmgr.ConnectionGater, re
 		t := "tcp"
 		if _, err := a.ValueForProtocol(ma.P_QUIC_V1); err == nil {
 			t = "quic"
+		}
+		if _, err := a.ValueForProtocol(ma.P_WS); err == nil {
+			t = "ws"
 		}
 		h.listen[fam+t] = a
 	}
@@ -687,6 +704,10 @@ func TestVerifC10Net(t *testing.T) {
 				case "att_step":
 					stages = append(stages, op.S("stage"))
 					if op.S("end") == "-" {
+						break
+					}
+					if op.S("tpt") == "ws" && op.S("dir") == "in" && n.remote[op.S("peer")].ip4 != nil {
+						stats["attempts_skipped_ws_source_not_bindable"]++
 						break
 					}
 					form := "plain"
